@@ -764,21 +764,27 @@ class _HoistWalrus(ast.NodeTransformer):
         that assigns are tested first, exactly as `and` does"""
         for _ in range(3):
             t = stmt.test
-            if stmt.orelse or not (isinstance(t, ast.BoolOp) and isinstance(t.op, ast.And)):
+            if not (isinstance(t, ast.BoolOp) and isinstance(t.op, ast.And)):
+                return stmt
+            # an else branch is written out under both tests (a short one without definitions only)
+            small_else = len(stmt.orelse) <= 3 and not any(isinstance(x, (ast.FunctionDef, ast.AsyncFunctionDef, ast.ClassDef, ast.Lambda, ast.NamedExpr)) for o_ in stmt.orelse for x in ast.walk(o_)) and sum(1 for o_ in stmt.orelse for _x in ast.walk(o_)) <= 60
+            if stmt.orelse and not small_else:
                 return stmt
             k = next((i for i, v in enumerate(t.values) if i > 0 and any(isinstance(x, ast.NamedExpr) for x in ast.walk(v))), None)
             if k is None or any(isinstance(x, ast.NamedExpr) for v in t.values[:k] for x in ast.walk(v)):
                 return stmt
             rest_vals = t.values[k:]
             inner_test = rest_vals[0] if len(rest_vals) == 1 else ast.copy_location(ast.BoolOp(op=ast.And(), values=rest_vals), t)
-            inner = ast.copy_location(ast.If(test=inner_test, body=stmt.body, orelse=[]), stmt)
+            import copy as _copy
+
+            inner = ast.copy_location(ast.If(test=inner_test, body=stmt.body, orelse=_copy.deepcopy(stmt.orelse)), stmt)
             pre = self._hoist(inner)
             if not pre:
                 return stmt
             inner = self._split_and(inner)
             outer_vals = t.values[:k]
             outer_test = outer_vals[0] if len(outer_vals) == 1 else ast.copy_location(ast.BoolOp(op=ast.And(), values=outer_vals), t)
-            stmt = ast.copy_location(ast.If(test=outer_test, body=pre + [inner], orelse=[]), stmt)
+            stmt = ast.copy_location(ast.If(test=outer_test, body=pre + [inner], orelse=stmt.orelse), stmt)
         return stmt
 
     def generic_visit(self, node):
